@@ -3,8 +3,8 @@
    Reading guide (definitions in Spec.v / Model.v):
    - [seq_run late seq0 h = Some (q, ms)]: the model of EventSequencer, started empty, run over the history
      [h] of callbacks and flush points (each flush with an ARBITRARY intra-phase order), emits [ms];
-     [late = false] is the phase order of the code as it stands, [late = true] the order after
-     fixes/C02-vtep-remove-after-route-update.patch;
+     [late = true] is the phase order of the code as it now stands (fix b52c0b5, VTEP removes last),
+     [late = false] the order before that fix;
    - [contract_gen late world0 world0 h]: the upstream contract (cb_ok for each callback, upstream world
      reference-closed at each flush; for [late = false] additionally [no_retarget]);
    - [closed w]: every reference of every object in dataplane world [w] exists in [w];
@@ -53,6 +53,19 @@ Theorem c02_insync_not_early : forall late h a ms,
   (forall e o, (e, o) ∈ h -> e <> LStatus true) -> loop_run late ast0 h = Some (a, ms) -> MInSync ∉ ms.
 Proof. exact insync_not_early. Qed.
 Print Assumptions c02_insync_not_early.
+
+(* The stream that actually leaves Felix is the loop's: the loop itself decides when to flush (dirty flag, leaky
+   bucket, forced flush at in-sync), so the contract must hold after every update batch ([loop_contract]).  With the
+   phase order of the code as it now stands (VTEP removes last) every message of the loop's whole output,
+   InSync included, is well-formed and leaves the dataplane reference-closed, and no Go panic is reached. *)
+Theorem c02_loop_stream_ok : forall h a ms,
+  loop_contract world0 h -> loop_run true ast0 h = Some (a, ms) -> stream_ok world0 ms.
+Proof. exact loop_stream_ok. Qed.
+Print Assumptions c02_loop_stream_ok.
+
+Theorem c02_loop_no_panic : forall h, loop_contract world0 h -> is_Some (loop_run true ast0 h).
+Proof. exact loop_no_panic. Qed.
+Print Assumptions c02_loop_no_panic.
 
 (* The full statement is FALSE of the faithful model with the order of the code as it stands: a history
    inside the plain contract whose stream is rejected (a VTEP is removed while a route still needs it). *)
